@@ -61,9 +61,14 @@ def describe(intr, st, it):
 
             def mk(t):
                 return Z(t, None, {"plain": True} if plain else {})
+            def pfacts(i):
+                fs = mapping_facts(m, i)
+                if plain:     # the items of a plain value are plain values
+                    fs = fs + [z3.Not(smt.is_VRef(item_key(m, i))), z3.Not(smt.is_VRef(item_val(m, i)))]
+                return fs
             if view == "items":
                 return Seq("items", m, n, lambda i: TupleV([mk(item_key(m, i)), mk(item_val(m, i))]),
-                           lambda i: mapping_facts(m, i), {"mapping": it.meta["of"]})
+                           pfacts, {"mapping": it.meta["of"]})
             if view == "keys":
                 return Seq("keys", m, n, lambda i: mk(item_key(m, i)), lambda i: mapping_facts(m, i),
                            {"mapping": it.meta["of"]})
@@ -75,20 +80,41 @@ def describe(intr, st, it):
             c = it.meta["cell_content"]
             n = bs.dict_len(c)
             own = it.meta["item_of"]
+            ref = it.meta.get("cell_ref")
 
-            def mkc(t):
-                return Z(t, None, {"item_of": own})
+            def mkc(t, k):
+                return Z(t, None, {"item_of": own, "key": k, "cellkind": "dict", "cell_ref": ref, "cell_content": c})
+
+            def cfacts(i):
+                v = item_val(c, i)
+                return mapping_facts(c, i) + [z3.Implies(smt.is_VRef(v), z3.And(smt.isinstance_(v, "SyncedCollection"),
+                                                                                Val.addr(v) > 1000))]
             if op == "items":
-                return Seq("items", c, n, lambda i: TupleV([Z(item_key(c, i), None, {"plain": True}), mkc(item_val(c, i))]),
-                           lambda i: mapping_facts(c, i), {"cell_owner": own})
+                return Seq("items", c, n, lambda i: TupleV([Z(item_key(c, i), None, {"plain": True}),
+                                                            mkc(item_val(c, i), item_key(c, i))]),
+                           cfacts, {"cell_owner": own})
             if op in ("keys", "iter"):
                 return Seq("keys", c, n, lambda i: Z(item_key(c, i), None, {"plain": True}),
                            lambda i: mapping_facts(c, i), {"cell_owner": own})
         if op == "iter" and it.meta.get("cellkind") == "list":
             c = it.meta["cell_content"]
             own = it.meta["item_of"]
-            return Seq("seq", c, bs.list_len(c), lambda i: Z(bs.list_get(c, VInt(i)), None, {"item_of": own}),
-                       lambda i: [bs.list_idx_ok(c, VInt(i))], {"cell_owner": own})
+            ref = it.meta.get("cell_ref")
+
+            def lfacts(i):
+                v = bs.list_get(c, VInt(i))
+                return [bs.list_idx_ok(c, VInt(i)),
+                        z3.Implies(smt.is_VRef(v), z3.And(smt.isinstance_(v, "SyncedCollection"), Val.addr(v) > 1000))]
+            return Seq("seq", c, bs.list_len(c),
+                       lambda i: Z(bs.list_get(c, VInt(i)), None, {"item_of": own, "key": VInt(i), "cellkind": "list",
+                                                                   "cell_ref": ref, "cell_content": c}),
+                       lfacts, {"cell_owner": own})
+        if it.meta.get("filter") is not None:
+            flt = it.meta["filter"]
+            t = it.term
+            return Seq("filter", t, plain_len(t), lambda i: Z(seq_at(t, i), None, {"plain": True}),
+                       lambda i: flt["elem_facts"](seq_at(t, i)) + [F("filter_index", Val, Val, IntS)(t, seq_at(t, i)) == i],
+                       {"filter": flt})
         if it.meta.get("range") is not None:
             n = it.meta["range"]
             return Seq("range", None, n, lambda i: Iv(i))
@@ -122,6 +148,9 @@ class LoopSpec:
         pass
 
     def invariant(self, L, st, vis):
+        return []
+
+    def invariant_instances(self, L, st, vis, i):
         return []
 
     def iteration_facts(self, L, st, i):
@@ -159,6 +188,10 @@ def install(intr_cls):
 
     def symbolic_for_ext(self, eng, s, st, it):
         fi = st.frames[-1]
+        if isinstance(it, Z) and it.hint in ("dict", "list"):
+            # iterating a container cell: the implicit iter() is a read of the cell
+            rs = self.cell_op(st, it, it.hint, "iter", [])
+            st, it = rs[-1]
         seq = describe(self, st, it)
         if seq is None:
             raise Unsupported("for loop over " + repr(it))
@@ -184,19 +217,34 @@ def install(intr_cls):
                 except Unsupported:
                     pass
         spec.havoc(L, h)
-        visF = smt.fresh("visited", z3.ArraySort(IntS, BoolS))
-        vis = lambda j: z3.Select(visF, j)
+        ordered = getattr(spec, "ordered", False)
+        if ordered:
+            # sequences are traversed in index order: the visited set is the prefix [0, p)
+            pos = smt.fresh("position", IntS)
+            h.assume(pos >= 0, pos <= seq.n)
+            L.sk["$pos"] = pos
+            vis = lambda j: z3.And(j >= 0, j < pos)
+        else:
+            visF = smt.fresh("visited", z3.ArraySort(IntS, BoolS))
+            vis = lambda j: z3.Select(visF, j)
         for (label, cl) in spec.invariant(L, h, vis):
             h.assume(cl)
         exit_state = h.copy()
         i = smt.fresh("iter", IntS)
         h.assume(i >= 0, i < seq.n, z3.Not(vis(i)))
+        if ordered:
+            h.assume(i == pos)
         for f in seq.facts(i):
             h.assume(f)
         for f in spec.iteration_facts(L, h, i):
             h.assume(f)
+        # the invariant is parametric in its Skolem element: it may be assumed at further instances
+        # (e.g. at the element of the current iteration)
+        for cl in spec.invariant_instances(L, h, vis, i):
+            h.assume(cl)
         h.trace.append((("loop-iteration", name), True))
-        vis2 = lambda j: z3.Or(z3.Select(visF, j), j == i)
+        vis2 = (lambda j: z3.And(j >= 0, j < pos + 1)) if ordered else (lambda j: z3.Or(z3.Select(visF, j), j == i))
+        L.sk["$pos_next"] = (pos + 1) if ordered else None
         L.sk["$iter"] = i
         if eng.feasible(h):
             for (x, o) in eng.assign(s.target, seq.elem(i), h):
@@ -218,8 +266,10 @@ def install(intr_cls):
         e.pc = [p for p in e.pc]      # (copy)
         # re-state the invariant for the all-visited set: the havocked state satisfies it for visF; at exit
         # visF is the full set
-        e.assume(*[z3.Implies(z3.And(j >= 0, j < seq.n), z3.Select(visF, j)) for j in exit_indices(L)])
-        e.ghost["$loop_visited_all"] = visF
+        if ordered:
+            e.assume(pos == seq.n)
+        else:
+            e.assume(*[z3.Implies(z3.And(j >= 0, j < seq.n), z3.Select(visF, j)) for j in exit_indices(L)])
         for f in spec.at_exit(L, e):
             e.assume(f)
         e.trace.append((("loop-exit", name), True))
